@@ -171,7 +171,11 @@ def same(a, b, tol=1e-5):
 def audit(ctx, rng, count, nsett):
     alls = list(sm.all_settings())
     for t in range(count):
-        f = rm.gen_sig(rng, m=rng.randint(3, 5))
+        if t % 8 == 7:
+            # two ADJACENT negative terms between positive ones (each lies in the other's full cover): 1 - a e^x - b e^{2x} + c e^{3x}
+            f = rm.sig_leaf([[F(0)], [F(1)], [F(2)], [F(3)]], [F(rng.choice([1, 2, 3])), F(-rng.choice([1, 2])), F(-rng.choice([1, 2])), F(rng.choice([1, 2, 4]))])
+        else:
+            f = rm.gen_sig(rng, m=rng.randint(3, 5))
         n = f['n']
         box = None
         if rng.random() < 0.45:
